@@ -158,6 +158,248 @@ def check(ctx, mode, root, plan, errors, results, case):
                        {"why": "a directory object in the store lists something else than its writer staged", "oid": toid})
 
 
+# ---------------------------------------------------------------- controlled interleavings (model correspondence)
+EMPTY_OID = "d41d8cd98f00b204e9800998ecf8427e"
+KIND_PCS = {"stat": {"stat", "restat"}, "read": {"read", "reread"}, "unlink": {"discard", "unlink", "rediscard"},
+            "chmod:444": {"vprotect", "protect"}, "probe": {"probe"}, "rename": {"create"}, "save": {"save"}}
+NOBODY = 65534
+
+
+def gen_job(rng, root, can_setuid):
+    os.makedirs(root)
+    contents = [rng.choice([b"shared content", b"x", b"", b"another object\n"]) for _ in range(rng.choice([1, 1, 2]))]
+    contents = list(dict.fromkeys(contents))
+    uid = NOBODY if (can_setuid and rng.random() < 0.6) else None
+    os.makedirs(os.path.join(root, "odb"))
+    pre = []
+    for c in contents:
+        oid = md5hex(c)
+        kind = rng.choice(["absent", "absent", "absent", "good-prot", "good-unprot", "empty-unprot", "junk-unprot"])
+        if kind == "absent" or (kind == "empty-unprot" and c == b""):
+            continue
+        data = {"good-prot": c, "good-unprot": c, "empty-unprot": b"", "junk-unprot": b"junk!"}[kind]
+        stores.put_raw(os.path.join(root, "odb"), oid, data, mode=0o444 if kind == "good-prot" else 0o644)
+        pre.append({"oid": oid, "data": data.hex(), "prot": kind == "good-prot"})
+    n = rng.choice([2, 2, 3, 3, 4])
+    writers = []
+    for i in range(n):
+        c = rng.choice(contents)
+        src = os.path.join(root, "src%d" % i)
+        with open(src, "wb") as f:
+            f.write(c)
+        writers.append({"oid": md5hex(c), "src": src, "data": c.hex()})
+    style = rng.random()
+    if style < 0.35:   # long runs of one writer (exposes check-then-act windows)
+        sched = []
+        while len(sched) < 14 * n:
+            sched += [rng.randrange(n)] * rng.randrange(1, 8)
+    else:
+        sched = [rng.randrange(n) for _ in range(14 * n)]
+    if uid is not None:
+        os.chmod(os.path.dirname(root), 0o755)
+        for d, _, fs_ in os.walk(root):
+            os.chown(d, uid, uid)
+            for f in fs_:
+                os.chown(os.path.join(d, f), uid, uid)
+    return {"root": root, "uid": uid, "writers": writers, "schedule": sched, "pre": pre,
+            "watch": sorted({w["oid"] for w in writers})}
+
+
+def run_real(job):
+    jf = os.path.join(job["root"], "job.json")
+    with open(jf, "w") as f:
+        json.dump(job, f)
+    os.chmod(jf, 0o644)
+    p = subprocess.run([PY, "-m", "harness.sched_child", jf], cwd=core.VERIF, capture_output=True, text=True, timeout=120)
+    if p.returncode != 0 or not p.stdout.strip():
+        raise core.Infra("sched_child failed: %s" % p.stderr[-400:])
+    return json.loads(p.stdout.strip().splitlines()[-1])
+
+
+def plan_of(job, real):
+    """[(real step index | None, writer, number of model steps)]: the schedule the real run actually followed, expanded
+    to model steps.  A rename stands for create + appends + rename (temp names are private).  An integrity check that is
+    answered by the shared hash-state database (another writer has hashed this very file incarnation) reads nothing: it
+    is the model's read placed immediately after the stat."""
+    plan = []
+    steps = real["steps"]
+    for k, st in enumerate(steps):
+        w = job["writers"][st["w"]]
+        nchunks = 1 if w["data"] else 0
+        plan.append((k, st["w"], (nchunks + 2) if st["kind"] == "rename" else 1))
+        if st["kind"] == "stat":
+            v = st["after"].get(st["oid"])
+            nxt = next((x for x in steps[k + 1:] if x["w"] == st["w"]), None)
+            if v is not None and not v["prot"] and (nxt is None or nxt["kind"] != "read"):
+                plan.append((None, st["w"], 1))
+    return plan
+
+
+def root_semantics(job):
+    return job["uid"] is None and os.geteuid() == 0
+
+
+def model_request(job, real):
+    sched = []
+    for _, w, n in plan_of(job, real):
+        sched += [w] * n
+    root_sem = root_semantics(job)
+    return {"op": "sched", "root": root_sem, "objs": job["pre"], "watch": job["watch"],
+            "threads": [{"oid": w["oid"], "tmp": i, "chunks": [w["data"]] if w["data"] else []} for i, w in enumerate(job["writers"])],
+            "sched": sched}
+
+
+def compare(job, real, model):
+    """[] when the model's run of the same schedule shows what the real threads did"""
+    diffs = []
+    mi = 0
+    msteps = model["steps"]
+    for k, w, n in plan_of(job, real):
+        m = msteps[mi]
+        if k is None:
+            if m["pc"] not in ("read", "reread"):
+                diffs.append("implicit read of writer %d: the model writer is at %s" % (w, m["pc"]))
+                break
+            mi += 1
+            continue
+        st = real["steps"][k]
+        if m["pc"] not in KIND_PCS.get(st["kind"], ()):
+            diffs.append("step %d: writer %d does %s, the model writer is at %s" % (k, st["w"], st["kind"], m["pc"]))
+            break
+        m = msteps[mi + n - 1]
+        after = {o: v for o, v in m["after"]}
+        if after != st["after"]:
+            diffs.append("step %d (%s by writer %d): store differs: real %s model %s" % (k, st["kind"], st["w"], st["after"], after))
+            break
+        mi += n
+    outs = ["ok" if p == "done" else ("error:PermissionError" if p == "failed" else "unfinished:" + p) for p in model["pcs"]]
+    if not diffs and outs != real["outcomes"]:
+        diffs.append("outcomes differ: real %s model %s" % (real["outcomes"], outs))
+    return diffs
+
+
+def corpus_jobs(ctx, can_setuid):
+    out = []
+    for item in json.load(open(os.path.join(core.VERIF, "harness", "corpus", "c16_schedules.json"))):
+        if item["uid"] == "nobody" and not can_setuid:
+            continue
+        base = ctx.mkdtemp()
+        os.chmod(base, 0o755)
+        root = os.path.join(base, "r")
+        os.makedirs(os.path.join(root, "odb"))
+        uid = NOBODY if item["uid"] == "nobody" else None
+        pre = []
+        for p in item["pre"]:
+            oid = md5hex(p["for"].encode())
+            stores.put_raw(os.path.join(root, "odb"), oid, p["data"].encode(), mode=0o444 if p["prot"] else 0o644)
+            pre.append({"oid": oid, "data": p["data"].encode().hex(), "prot": p["prot"]})
+        writers = []
+        for i, c in enumerate(item["contents"]):
+            src = os.path.join(root, "src%d" % i)
+            with open(src, "wb") as f:
+                f.write(c.encode())
+            writers.append({"oid": md5hex(c.encode()), "src": src, "data": c.encode().hex()})
+        if uid is not None:
+            for d, _, fs_ in os.walk(root):
+                os.chown(d, uid, uid)
+                for f in fs_:
+                    os.chown(os.path.join(d, f), uid, uid)
+        out.append({"root": root, "uid": uid, "writers": writers, "schedule": item["schedule"], "pre": pre,
+                    "watch": sorted({w["oid"] for w in writers}), "name": item["name"]})
+    return out
+
+
+def fixed_job(ctx, uid, contents, schedule, pre_kind=None):
+    base = ctx.mkdtemp()
+    os.chmod(base, 0o755)
+    root = os.path.join(base, "r")
+    os.makedirs(os.path.join(root, "odb"))
+    pre = []
+    if pre_kind:
+        oid = md5hex(contents[0])
+        data = {"good-unprot": contents[0], "empty-unprot": b"", "junk-unprot": b"junk!"}[pre_kind]
+        stores.put_raw(os.path.join(root, "odb"), oid, data, mode=0o644)
+        pre.append({"oid": oid, "data": data.hex(), "prot": False})
+    writers = []
+    for i, c in enumerate(contents):
+        src = os.path.join(root, "src%d" % i)
+        with open(src, "wb") as f:
+            f.write(c)
+        writers.append({"oid": md5hex(c), "src": src, "data": c.hex()})
+    if uid is not None:
+        for d, _, fs_ in os.walk(root):
+            os.chown(d, uid, uid)
+            for f in fs_:
+                os.chown(os.path.join(d, f), uid, uid)
+    return {"root": root, "uid": uid, "writers": writers, "schedule": schedule, "pre": pre, "watch": sorted({w["oid"] for w in writers})}
+
+
+def exhaustive_two(ctx, can_setuid):
+    """every interleaving of two writers of one object (each has at most 6 schedule points on the main path, 7 through a
+    discard): all words with seven 0s and seven 1s; choices naming a finished writer are skipped by the controller"""
+    import itertools
+
+    jobs = []
+    uids = [None] + ([NOBODY] if can_setuid else [])
+    for uid in uids:
+        for pre_kind, k in ((None, 6), ("junk-unprot", 7)):
+            for zeros in itertools.combinations(range(2 * k), k):
+                sched = [0 if i in zeros else 1 for i in range(2 * k)]
+                jobs.append(fixed_job(ctx, uid, [b"shared content"] * 2, sched, pre_kind))
+    return jobs
+
+
+def controlled(ctx, n_jobs):
+    import concurrent.futures
+
+    can_setuid = os.geteuid() == 0
+    os.chmod(ctx.scratch, 0o755)
+    jobs = corpus_jobs(ctx, can_setuid)
+    if ctx.tier == "thorough":
+        ex = exhaustive_two(ctx, can_setuid)
+        ctx.exhaustive["all interleavings of two writers of one object (absent / garbage leftover; privileged / unprivileged)"] = len(ex)
+        jobs += ex
+    for i in range(n_jobs):
+        root = ctx.mkdtemp()
+        os.chmod(root, 0o755)
+        jobs.append(gen_job(ctx.rng, os.path.join(root, "r"), can_setuid))
+    with concurrent.futures.ThreadPoolExecutor(max_workers=min(12, os.cpu_count() or 4)) as pool:
+        reals = list(pool.map(run_real, jobs))
+    import shutil
+
+    for job, real in zip(jobs, reals):
+        check_controlled(ctx, job, real)
+        shutil.rmtree(os.path.dirname(job["root"]), ignore_errors=True)
+
+
+def check_controlled(ctx, job, real):
+    case = {"mode": "controlled", "uid": job["uid"], "pre": job["pre"], "writers": [{"oid": w["oid"], "data": w["data"]} for w in job["writers"]],
+            "schedule": job["schedule"], "executed": [[s["w"], s["kind"]] for s in real["steps"]]}
+    ctx.case(case)
+    ctx.count("controlled:%s:%d" % ("nonroot" if job["uid"] else "root", len(job["writers"])))
+    if real.get("error"):
+        raise core.Infra("controlled run: %s" % real["error"])
+    model = ctx.driver.ask(model_request(job, real))
+    ctx.corr("Conc.runSched~real threads under the same schedule", case, compare(job, real, model), [])
+    for k in {s["kind"] for s in real["steps"]}:
+        ctx.count("event:" + k)
+    for pc in {s["pc"] for s in model["steps"]}:
+        ctx.count("pc:" + pc)
+    # the property on the real run
+    failed = [o for o in real["outcomes"] if o != "ok"]
+    sig = None
+    mfailed = [i for i, p in enumerate(model["pcs"]) if p == "failed"]
+    rfailed = [i for i, o in enumerate(real["outcomes"]) if o == "error:PermissionError"]
+    if failed and not root_semantics(job) and len(job["writers"]) >= 3 and mfailed == rfailed and len(rfailed) == len(failed):
+        # exactly the writers the model of the *repaired* code sends to `failed`: probe refused, object gone at the re-check
+        sig = "nonroot-refused-probe-then-object-gone-at-recheck"
+    ctx.oracle(not failed, case, {"why": "a writer failed", "outcomes": real["outcomes"]}, signature=sig)
+    for oid, v in real["final"].items():
+        if not failed:
+            ctx.oracle(v is not None and v["ok"] and v["prot"], case,
+                       {"why": "after all writers finished a requested object is missing, incomplete or unprotected", "oid": oid, "state": v})
+
+
 def run(ctx):
     ctx.rule = (
         "N writers (2-8 threads with their own store handles and state handles in one process; 2-4 separate processes) stage and "
@@ -188,6 +430,7 @@ def run(ctx):
         check(ctx, "processes", root, plan, errors, results, case)
         for tr in traces:
             conformance(ctx, "writer", tr, root, None)
+    controlled(ctx, ctx.n(40, 600))
 
 
 def search(ctx):
